@@ -30,8 +30,10 @@ def gen_case(rng, tier, idx):
     ratio = dw // gran
     sizes = [s for s in (2, 4, 8, 16, 32, 64, 128, 256, 1024) if s * gran >= dw]
     size = rng.choice(sizes[:5] if rng.random() < 0.7 else sizes)
+    if rng.random() < 0.04:
+        size = rng.choice([4096, 65536])
     depth = size * gran // dw
-    n_init = rng.choice([0, depth, rng.randint(0, depth)])
+    n_init = rng.choice([0, depth, rng.randint(0, depth)]) if depth <= 1024 else rng.choice([0, 7, 300])
     init = [rng.getrandbits(dw) for _ in range(n_init)]
     return {
         "size": size, "data_width": dw, "granularity": gran,
@@ -76,8 +78,8 @@ def run_case(case):
                 inp = {
                     "cyc": int(rng.random() < p), "stb": int(rng.random() < p),
                     "we": int(rng.random() < 0.5),
-                    "adr": rng.randrange(depth) if rng.random() < 0.5 or not written
-                    else rng.choice(sorted(written)),
+                    "adr": (rng.randrange(depth) if rng.random() < 0.7 else rng.choice([0, depth - 1, depth // 2, depth // 2 - 1]))
+                    if rng.random() < 0.5 or not written else rng.choice(sorted(written)),
                     "sel": rng.choice([bits(rng, nsel), (1 << nsel) - 1, 0, 1 << rng.randrange(nsel)]),
                     "dat_w": biased_bits(rng, dw),
                 }
@@ -107,13 +109,18 @@ def run_case(case):
                         state["nontrivial"] = True
             # whole-memory image against the model (contents visible in this cycle)
             if c % full_every == 0:
-                for row in range(depth):
+                if depth <= 1024:
+                    rows = range(depth)
+                else:   # very large memory: every row ever addressed, their neighbours, and a random sample
+                    rows = sorted({r for a in written for r in (a - 1, a, a + 1) if 0 <= r < depth}
+                                  | {rng.randrange(depth) for _ in range(32)} | {0, depth - 1})
+                for row in rows:
                     got = ctx.get(mem_data[row])
                     if got != model[row]:
                         mon.counters["mem_image"] += 1
                         mon.fail("mem_image", f"memory row {row} holds {got:#x}, model {model[row]:#x}",
                                  row=row, observed=got, expected=model[row])
-                mon.count("mem_image", depth)
+                mon.count("mem_image", len(rows))
             # ---- model step (effect of this cycle's edge)
             state["pre"] = list(model)
             request = (not ack) and inp["cyc"] and inp["stb"]
